@@ -4,10 +4,10 @@ package rdb
 
 import (
 	"bufio"
-	"io"
 	"bytes"
 	"encoding/binary"
 	"fmt"
+	"io"
 	"os"
 	"runtime"
 	"runtime/debug"
@@ -379,8 +379,14 @@ func TestVerif_C11B(t *testing.T) {
 // decode in one process at the same time. Every payload must be the one the same loader
 // produces when it runs alone, and its trailer must be the CRC-64 of its own bytes; a -race
 // build of this test reports storage shared between the loaders.
-func TestVerif_C11Race(t *testing.T) {
-	defer ev.Flush("C11")
+func TestVerif_C11Race(t *testing.T) { rdbConcurrentLoaders(t, "C11") }
+
+// TestVerif_C01Race: the same body for C01 (every record delivered exactly, also when several
+// loaders run in one process).
+func TestVerif_C01Race(t *testing.T) { rdbConcurrentLoaders(t, "C01") }
+
+func rdbConcurrentLoaders(t *testing.T, prop string) {
+	defer ev.Flush(prop)
 	log.SetLevel(log.LEVEL_NONE)
 	if ev.ReplayFile() != "" {
 		return
@@ -478,7 +484,7 @@ func TestVerif_C11Race(t *testing.T) {
 	}
 	wg.Wait()
 	if bad != "" {
-		ev.Violate("C11|concurrent-loaders", bad, c11Case{Sub: "race"})
+		ev.Violate(prop+"|concurrent-loaders", bad, c11Case{Sub: "race"})
 	}
 	ev.Eval(int64(loaders * rounds))
 	ev.Trace(int64(loaders * rounds))
